@@ -383,6 +383,8 @@ MATCH_TABLE = (
     ('zz?', ('apple', 'zz'), None), ('a.?', ('axb', 'a.b'), 2), ('a+?', ('aab', 'a+b'), 2), ('apple', ('apples', 'Apple'), 2),
     # line breaks inside a cell are ordinary characters
     ('ap?', ('app\n', 'app'), 2), ('ap?', ('xx', 'ap\n'), 2), ('a*e', ('b', 'a\nle'), 2), ('apple', ('apple\n', 'apple'), 2),
+    # ? stands for one character of the item as it is written: letters whose case-folded form is longer (sharp s, ligatures) are one character
+    ('stra?e', ('Strand', 'Stra\xdfe'), 2), ('?lm', ('\ufb01lm', 'alm'), 1), ('stra??e', ('Stra\xdfe', 'Strasse'), 2),
 )
 
 
